@@ -35,7 +35,7 @@ def install(w):
                params=dict(KEYS, are_mutually_exclusive="bool"),
                requires=["WF(self)"],
                ensures=sub(ADD_POST, "min(a, b)", "max(a, b)", "are_mutually_exclusive"),
-               modifies=[], props={"C14"})
+               modifies=[], props={"C14", "C13"})
     w.contract(f"{OF}.PairSet.has",
                params=dict(KEYS, are_mutually_exclusive="bool"), returns="bool",
                requires=["WF(self)"],
@@ -43,19 +43,19 @@ def install(w):
                ensures=["result == (Pres(self, min(a, b), max(a, b)) and"
                         " (are_mutually_exclusive or not Flag(self, min(a, b), max(a, b))))",
                         "forall_int(x, y, Pres(self, x, y) == old(Pres(self, x, y)))"],
-               modifies=[], props={"C14"})
+               modifies=[], props={"C14", "C13"})
     w.contract(f"{OF}.PairSet.__init__", requires=[], ensures=["WF(self)",
-               "forall_int(x, y, not Pres(self, x, y))"], modifies=["self._data"], props={"C14"})
+               "forall_int(x, y, not Pres(self, x, y))"], modifies=["self._data"], props={"C14", "C13"})
 
     OKEYS = {"a": "dyn", "b": "int"}
     w.contract(f"{OF}.OrderedPairSet.add",
                params=dict(OKEYS, weakly_present="bool"),
                requires=["WF(self)"],
                ensures=sub(ADD_POST, "id(a)", "b", "weakly_present"),
-               modifies=[], props={"C14"})
+               modifies=[], props={"C14", "C13"})
     w.contract(f"{OF}.OrderedPairSet.has",
                params=dict(OKEYS, weakly_present="bool"), returns="bool",
                requires=["WF(self)"],
                ensures=["result == (Pres(self, id(a), b) and"
                         " (weakly_present or not Flag(self, id(a), b)))"],
-               modifies=[], props={"C14"})
+               modifies=[], props={"C14", "C13"})
